@@ -25,7 +25,8 @@ REPORTED = ("function", "class", "comprehension")
 COMP_NODES = (ast.ListComp, ast.SetComp, ast.DictComp, ast.GeneratorExp)
 _BODY_FIELDS = ("body", "orelse", "finalbody", "handlers", "cases")
 _CTX_NODES = (ast.stmt, ast.ExceptHandler, ast.match_case, ast.Lambda, ast.ListComp, ast.SetComp,
-              ast.DictComp, ast.GeneratorExp, ast.comprehension, ast.arguments, ast.withitem)
+              ast.DictComp, ast.GeneratorExp, ast.comprehension, ast.arguments, ast.withitem, ast.Yield,
+              ast.YieldFrom)
 
 
 class Site:
@@ -53,6 +54,8 @@ class RScope:
         self.loads = []           # (name, ast.Name node, in_lambda)
         self.expr_ctx = ""        # where the scope's node sits (statement field chain), for comprehensions
         self.block_ctx = "top"
+        self.first_iter = False   # comprehension only: sits in the first iterable of another comprehension
+        self.notes = {}           # name -> remark about a non-binding occurrence (e.g. "(x): int")
         self.walrus_out = set()   # comprehension only: walrus targets inside that bind further out
         self.via = ""             # skipped expression scopes between this scope and its reported parent
         if parent is not None:
@@ -161,6 +164,7 @@ class Model:
             sites = []
             if owner.kind == "module":
                 sites.extend(owner.bind.get(name, []))
+                sites.extend(owner.decl_global.get(name, []))
                 for s in owner.walk():
                     if s is not owner and name in s.decl_global:
                         sites.extend(s.bind.get(name, []))
@@ -253,6 +257,9 @@ class Model:
             # the module table also lists names declared global in nested scopes
             for n in list(sym):
                 if n not in scope.decl_global:
+                    if sym[n] == {"global"} and n in scope.bind and all(
+                            x.construct == "NamedExpr[in-comprehension]" for x in scope.bind[n]):
+                        sym[n] = {"bound"}    # module-level walrus inside a comprehension: flagged DEF_GLOBAL only
                     sym[n].discard("global")
                     if not sym[n]:
                         del sym[n]
@@ -264,6 +271,25 @@ class Model:
         if my != sym:
             diff = sorted(set(my) ^ set(sym)) or sorted(n for n in my if my[n] != sym.get(n))
             problems.append(f"{scope.kind}@{scope.start}: names differ: {diff[:6]}")
+        if scope.kind != "comprehension" or scope.sub == "genexpr":
+            inl = set()
+            for q in self._inlined(scope):
+                inl.update(q.bind)
+            for name in sorted({n for n, _, _ in scope.loads} - inl):
+                owner = self._owner(scope, name)
+                try:
+                    s = table.lookup(_mangle(cls.node.name, name) if cls is not None else name)
+                except KeyError:
+                    problems.append(f"{scope.kind}@{scope.start}: load of {name} unknown to symtable")
+                    continue
+                if owner is scope and scope.kind != "module":
+                    ok = s.is_local()
+                elif owner is None or owner.kind == "module":
+                    ok = s.is_global() or (scope.kind == "module" and s.is_local())
+                else:
+                    ok = s.is_free()
+                if not ok:
+                    problems.append(f"{scope.kind}@{scope.start}: resolution of {name} differs")
         mine_children = self._sym_visible_children(scope)
         tchildren = [t for t in table.get_children() if t.get_type() != "annotation"]
         groups_a, groups_b = {}, {}
@@ -331,16 +357,27 @@ class _Binder:
         return "top"
 
     def expr_ctx(self):
+        """Where an expression sits: field of the innermost statement of the current reported scope (with the
+        sub-field for parameter lists / with-items, '>Yield' when under a yield); inside a comprehension scope the
+        comprehension part (elt / ifs / iter ...)."""
         ent = self._since_scope()
         last_stmt = -1
         for i, (cls, field, is_stmt) in enumerate(ent):
             if is_stmt:
                 last_stmt = i
-        chain = ent[last_stmt:] if last_stmt >= 0 else ent
-        parts = [f"{cls}.{field}" for cls, field, _ in chain]
-        if len(parts) > 3:
-            parts = parts[:2] + [parts[-1]]
-        return ">".join(parts) or "top"
+        if last_stmt >= 0:
+            cls, field, _ = ent[last_stmt]
+            out = f"{cls}.{field}"
+            rest = ent[last_stmt + 1:]
+            if rest and rest[0][0] in ("arguments", "withitem"):
+                out += "." + rest[0][1]
+            if any(c in ("Yield", "YieldFrom") for c, _, _ in rest):
+                out += ">Yield"
+            return out
+        for cls, field, _ in reversed(ent):
+            if cls == "comprehension" or cls in ("ListComp", "SetComp", "DictComp", "GeneratorExp"):
+                return ("comprehension." if cls != "comprehension" else "comprehension.") + field
+        return "top"
 
     def via(self):
         names = []
@@ -468,6 +505,7 @@ class _Binder:
         self.ctx.pop()
         q = RScope("comprehension", node, scope, sub)
         q.expr_ctx, q.block_ctx, q.via = self.expr_ctx(), self.block_ctx(), self.via()
+        q.first_iter = any(c == "comprehension" and f == "iter" for c, f, _ in self._since_scope())
         self.enter(q)
         for i, g in enumerate(gens):
             span = (g.target.lineno, g.iter.end_lineno or g.target.lineno)
@@ -662,6 +700,8 @@ class _Binder:
                 self.bind(scope, node.target.id, "AnnAssign", span[0], span[1])
             elif node.simple:
                 self.bind(scope, node.target.id, "AnnAssign:novalue", span[0], span[1], optional=True)
+            else:
+                scope.notes[node.target.id] = "AnnAssign[parenthesized-target-without-value]"
             self.ctx.pop()
         else:
             self.child(node, "target", node.target, scope)
